@@ -27,6 +27,10 @@ type mockTrustStore struct {
 	mu     sync.Mutex
 	stores map[storeKey][]*x509.Certificate // absent key => load error
 	calls  []storeKey
+	// a rendering of the same facts on disk: stores named here are answered by the library's own file-system trust store
+	real     truststore.X509TrustStore
+	realKeys map[storeKey]bool
+	cleanup  func()
 }
 
 func newMockTrustStore() *mockTrustStore {
@@ -42,6 +46,9 @@ func (m *mockTrustStore) GetCertificates(ctx context.Context, storeType truststo
 	defer m.mu.Unlock()
 	k := storeKey{storeType, namedStore}
 	m.calls = append(m.calls, k)
+	if m.real != nil && m.realKeys[k] {
+		return m.real.GetCertificates(ctx, storeType, namedStore)
+	}
 	certs, ok := m.stores[k]
 	if !ok {
 		return nil, truststore.TrustStoreError{Msg: "mock: the trust store does not exist"}
